@@ -41,8 +41,9 @@ def shouldEncode (extra : List Nat) (b : Nat) : Bool :=
 /-- upper-case hex digit (as a byte) of a nibble. -/
 def hexDigitUpper (n : Nat) : Nat := if n < 10 then 48 + n else 55 + n
 
-/-- `percent_encode_byte`: `%XX`, upper-case. -/
-def encByte (b : Nat) : Bytes := [37, hexDigitUpper (b / 16), hexDigitUpper (b % 16)]
+/-- `percent_encode_byte`: `%XX`, upper-case (`b / 16 % 16 = b / 16` for a byte; the reduction only
+makes the output hex digits for every `Nat`). -/
+def encByte (b : Nat) : Bytes := [37, hexDigitUpper (b / 16 % 16), hexDigitUpper (b % 16)]
 
 /-- one step of the `PercentEncode` iterator. -/
 def encOne (extra : List Nat) (b : Nat) : Bytes :=
